@@ -51,7 +51,23 @@ func normComment(s string) string {
 	return strings.Join(strings.Fields(s), " ")
 }
 
+// c03Check: a failure on a CRLF input that disappears when the same text uses LF line endings is
+// attributed to the recorded CRLF defect (blank lines \r\n\r\n are not recognised), whatever
+// its downstream symptom (merged import groups re-sorted, comments joined to a doc comment and
+// reformatted by go/printer, a trailing comma lost with the line break).
 func c03Check(in c03Input) (key, what string) {
+	key, what = c03CheckRaw(in)
+	if key == "" || !strings.Contains(in.Src, "\r\n") || strings.HasPrefix(key, "crlf-") {
+		return
+	}
+	lf := c03Input{Src: strings.ReplaceAll(in.Src, "\r\n", "\n"), Variant: in.Variant}
+	if k2, _ := c03CheckRaw(lf); k2 == "" {
+		return "crlf-blank-lines-lost", "CRLF only (the LF version of the same text passes): " + what
+	}
+	return
+}
+
+func c03CheckRaw(in c03Input) (key, what string) {
 	if _, err := parser.ParseFile(token.NewFileSet(), "", in.Src, parser.ParseComments); err != nil {
 		return "", ""
 	}
@@ -73,8 +89,8 @@ func c03Check(in c03Input) (key, what string) {
 	if _, err := parser.ParseFile(token.NewFileSet(), "", out, parser.ParseComments); err != nil {
 		return "c03-unparseable", "the output does not parse: " + err.Error()
 	}
-	wt, _, _ := scanAll(string(want))
-	ot, ocs, _ := scanAll(out)
+	wt, _, _ := scanAllOpt(string(want), true)
+	ot, ocs, _ := scanAllOpt(out, true)
 	_, ics, _ := scanAll(in.Src)
 	if tokString(wt) != tokString(ot) {
 		k := "c03-tokens"
@@ -95,6 +111,16 @@ func c03Check(in c03Input) (key, what string) {
 	for _, cm := range gcs {
 		g = append(g, normComment(cm.Lit))
 	}
+	// gofmt is not idempotent on comments: a comment that does not start in column 1 is left alone
+	// by the first pass and reformatted as a doc comment by the second.  dst's print is such a second
+	// pass (every comment is restored at its canonical column), so texts are judged against both.
+	cntFmt2 := map[string]int{}
+	if want2, err := format.Source(want); err == nil {
+		_, gcs2, _ := scanAll(string(want2))
+		for _, cm := range gcs2 {
+			cntFmt2[normComment(cm.Lit)]++
+		}
+	}
 	// nothing invented or rewritten: every output comment is an input comment (with multiplicity);
 	// nothing dropped: every input comment that gofmt itself keeps verbatim is in the output
 	// (gofmt rewrites doc comments that start in column 1 -- e.g. it deletes an empty "//" doc
@@ -109,9 +135,11 @@ func c03Check(in c03Input) (key, what string) {
 	for _, x := range g {
 		cntFmt[x]++
 	}
+	// (go/printer reformats doc comments -- paragraph separators "//", a space after "//" -- in
+	// gofmt(input) and in dst's print alike: a text that is not the input's must be gofmt's)
 	for x, n := range cntOut {
-		if n > cntIn[x] {
-			return "c03-comments", fmt.Sprintf("the output has comment %q %d times, the input %d times", x, n, cntIn[x])
+		if n > cntIn[x] && n > cntFmt[x] && n > cntFmt2[x] {
+			return "c03-comments", fmt.Sprintf("the output has comment %q %d times, the input %d times, gofmt(input) %d times, gofmt(gofmt(input)) %d times", x, n, cntIn[x], cntFmt[x], cntFmt2[x])
 		}
 	}
 	for x, n := range cntIn {
@@ -119,33 +147,62 @@ func c03Check(in c03Input) (key, what string) {
 		if cntFmt[x] < keep {
 			keep = cntFmt[x]
 		}
+		if cntFmt2[x] < keep {
+			keep = cntFmt2[x]
+		}
 		if cntOut[x] < keep {
 			return "c03-comments", fmt.Sprintf("comment %q: input %d times, gofmt keeps %d, the output has %d", x, n, cntFmt[x], cntOut[x])
 		}
 	}
-	inInput := map[string]int{}
-	for _, x := range a {
-		inInput[x]++
-	}
-	var g2, b2 []string
-	inG := map[string]int{}
-	for _, x := range g {
-		if inInput[x] > 0 {
-			g2 = append(g2, x)
-			inG[x]++
+	// order: gofmt itself reorders comments (a //go:build line is moved to its place, a //go:
+	// directive in the middle of a doc comment to its end) and go/printer does the first of these
+	// to dst's print as well, so the property's two clauses -- "in the order gofmt emits them" and
+	// "nothing reordered" -- can name different orders for different pairs of comments of one
+	// file.  Checked per pair of comments whose text is unique: their order in the output must be
+	// their order in gofmt(input) or their order in the input.
+	idx := func(xs []string) map[string]int {
+		m, dup := map[string]int{}, map[string]bool{}
+		for i, x := range xs {
+			if _, ok := m[x]; ok {
+				dup[x] = true
+			}
+			m[x] = i
 		}
+		for x := range dup {
+			delete(m, x)
+		}
+		return m
 	}
+	ia, ig, ib := idx(a), idx(g), idx(b)
+	var uniq []string
 	for _, x := range b {
-		if inG[x] > 0 {
-			b2 = append(b2, x)
+		if _, ok := ib[x]; ok {
+			if _, ok := ia[x]; ok {
+				if _, ok := ig[x]; ok {
+					uniq = append(uniq, x)
+				}
+			}
 		}
 	}
-	if strings.Join(g2, "\x00") != strings.Join(b2, "\x00") {
-		k := "c03-comment-order"
-		if strings.Contains(in.Src, "\r\n") {
-			k = "crlf-blank-lines-lost"
+	for i := 0; i < len(uniq); i++ {
+		for j := i + 1; j < len(uniq); j++ {
+			x, y := uniq[i], uniq[j]
+			if ia[x] > ia[y] && ig[x] > ig[y] {
+				k := "c03-comment-order"
+				if strings.Contains(in.Src, "\r\n") {
+					k = "crlf-blank-lines-lost"
+				}
+				return k, fmt.Sprintf("comment %q comes out before %q, but after it in the input and in gofmt(input)", x, y)
+			}
 		}
-		return k, "comments come out in a different order than gofmt emits them: " + firstListDiff(g2, b2)
+	}
+	// tokens and comments as one sequence: no comment moves across a token (only when gofmt keeps
+	// every comment verbatim, so that the two sequences are comparable element by element)
+	if strings.Join(g, "\x00") == strings.Join(a, "\x00") {
+		ws, os_ := scanSeq(string(want)), scanSeq(out)
+		if strings.Join(ws, "\x00") != strings.Join(os_, "\x00") {
+			return "c03-comment-moved", "a comment sits between different tokens than in gofmt(input): " + firstListDiff(ws, os_)
+		}
 	}
 	return "", ""
 }
